@@ -204,6 +204,21 @@ func cmdEmit(args []string) {
 			if len(ev.Out) > 4000 {
 				ev.Out = ev.Out[:4000]
 			}
+			// a short digits-only secret could coincide with a count or probability in a legitimate diagnostic: not searched
+			kept := ev.Secrets[:0]
+			for _, sct := range ev.Secrets {
+				numeric := true
+				for _, c := range sct {
+					if !(c >= '0' && c <= '9') && c != '.' && c != '-' && c != 'e' {
+						numeric = false
+						break
+					}
+				}
+				if !numeric || len(sct) >= 9 {
+					kept = append(kept, sct)
+				}
+			}
+			ev.Secrets = kept
 			own := len(ev.Secrets)
 			if len(ev.Out) > 0 {
 				ev.Secrets = append(ev.Secrets, recent...)
